@@ -104,6 +104,10 @@ def module_consts(path, tree):
                   and len(v.args) == 1 and not v.keywords and isinstance(v.args[0], ast.Constant)
                   and isinstance(v.args[0].value, (str, bytes))):
                 out[name] = ('re', v.args[0].value, st.lineno)
+            elif (isinstance(v, ast.Dict) and v.keys and all(isinstance(k, ast.Constant) and isinstance(k.value, str) for k in v.keys)
+                  and all(isinstance(x, ast.Constant) and isinstance(x.value, str) for x in v.values)
+                  and len({k.value for k in v.keys}) == len(v.keys)):
+                out[name] = ('strdict', [(k.value, x.value) for k, x in zip(v.keys, v.values)], st.lineno)
             else:
                 out[name] = ('other', None, st.lineno)
     return out
@@ -128,7 +132,7 @@ CONST_FILES = [  # key, relative path, required names with required kinds
     ('tls', 'ncclient/transport/tls.py', {'BUF_SIZE': 'int'}),
     ('unix', 'ncclient/transport/unixSocket.py', {'BUF_SIZE': 'int'}),
     ('xml', 'ncclient/xml_.py', {'BASE_NS_1_0': 'str', 'NETCONF_NOTIFICATION_NS': 'str', 'NETCONF_MONITORING_NS': 'str',
-                                  'NETCONF_WITH_DEFAULTS_NS': 'str'}),
+                                  'NETCONF_WITH_DEFAULTS_NS': 'str', 'XPATH_NAMESPACES': 'strdict'}),
 ]
 
 CONST_DOC = '''(* Gen/Gen_Const.v  GENERATED by tools/translate.py from the source tree under test; do not edit.
@@ -145,12 +149,15 @@ CONST_DOC = '''(* Gen/Gen_Const.v  GENERATED by tools/translate.py from the sour
      float literal          -> <key>_<NAME>_text : bytes  (Python repr of the float) and
                                <key>_<NAME>_us : N       (the value in microseconds, when exact)
      re.compile(<literal>)  -> <key>_<NAME> : bytes       (the pattern text)
+     {"k": "v", ...}        -> <key>_<NAME> : list (bytes * bytes)   (non-empty dict of str literals,
+                               source order; e.g. xml_XPATH_NAMESPACES)
    plus one table per module  <key>_str_consts : list (bytes * bytes)  (name, value) of all
    str/bytes/re constants in source order, and  <key>_int_consts : list (bytes * N).
    Names that must exist with the stated kind (else the translator fails):
      session: MSG_DELIM END_DELIM (bytes) TICK (float);  parser: MSG_DELIM END_DELIM (str)
      BUF_SIZE (int) TICK (float) RE_NC11_DELIM (re);  ssh/tls/unix: BUF_SIZE (int);
-     xml: BASE_NS_1_0 NETCONF_NOTIFICATION_NS NETCONF_MONITORING_NS NETCONF_WITH_DEFAULTS_NS (str).
+     xml: BASE_NS_1_0 NETCONF_NOTIFICATION_NS NETCONF_MONITORING_NS NETCONF_WITH_DEFAULTS_NS (str),
+     XPATH_NAMESPACES (dict of str).
    Right-hand sides that are not literals (e.g. MSG_DELIM_LEN = len(MSG_DELIM)) are not emitted. *)
 '''
 
@@ -175,6 +182,8 @@ def gen_const(repo):
                 out.append('Definition %s : bytes := %s.  (* %s *)' % (ident, cq_bytes(val), comment_text(to_bytes(val))))
                 strs.append((name, val))
                 if key == 'xml' and kind == 'str': xml_consts[name] = val
+            elif kind == 'strdict':
+                out.append('Definition %s : list (bytes * bytes) :=\n  %s.' % (ident, cq_pairs(val)))
             elif kind == 'bool':
                 out.append('Definition %s : bool := %s.' % (ident, cq_bool(val)))
             elif kind == 'int':
@@ -214,8 +223,17 @@ OPS_DOC = '''(* Gen/Gen_Ops.v  GENERATED by tools/translate.py from the source t
          rc_depends      DEPENDS as seen through inheritance (the value attribute lookup gives)
          rc_reply_decl   Some name when the class body assigns REPLY_CLS = <Name>, else None
          rc_reply_cls    REPLY_CLS as seen through inheritance (class name)
-   Lookup helpers: find_rpc module name, depends_of module name. *)
+   Lookup helpers: find_rpc module name, depends_of module name.
+   fn_digests : list (bytes * bytes)
+       ("<file stem>.<function>" or "<file stem>.<Class>.<method>", digest) for every top-level
+       function and every method of every top-level class of the files in DIGEST_FILES of
+       tools/translate.py (ncclient/manager.py, ncclient/xml_.py); digest = 16 hex digits of
+       SHA-256 over the ast dump of the body (docstring and layout excluded); a second definition
+       of the same name (property setter) is keyed "<name>#2".  A GenProps file pins
+       with it the source text a hand-written model was made for:  fn_digest name : option bytes. *)
 '''
+
+DIGEST_FILES = ['ncclient/manager.py', 'ncclient/xml_.py']
 
 def dotted(repo, path):
     rel = os.path.relpath(path, repo)
@@ -383,6 +401,23 @@ def gen_ops(repo):
                '  find (fun c => beq (rc_module c) m && beq (rc_name c) n) rpc_classes.\n')
     out.append('Definition depends_of (m n : bytes) : option (list bytes) :=\n'
                '  match find_rpc m n with Some c => Some (rc_depends c) | None => None end.\n')
+    digs = []
+    for rel in DIGEST_FILES:
+        path = os.path.join(repo, rel)
+        stem = os.path.basename(rel)[:-3]
+        for st in parse(path).body:
+            if isinstance(st, ast.FunctionDef):
+                digs.append(('%s.%s' % (stem, st.name), digest(st)))
+            elif isinstance(st, ast.ClassDef):
+                for m in st.body:
+                    if isinstance(m, ast.FunctionDef):
+                        digs.append(('%s.%s.%s' % (stem, st.name, m.name), digest(m)))
+    seen = {}
+    for i, (k, d) in enumerate(digs):          # property getter/setter pairs share a name: x, x#2
+        seen[k] = seen.get(k, 0) + 1
+        if seen[k] > 1: digs[i] = ('%s#%d' % (k, seen[k]), d)
+    out.append('Definition fn_digests : list (bytes * bytes) :=\n  %s.\n' % cq_pairs(digs))
+    out.append('Definition fn_digest (name : bytes) : option bytes := dict_get name fn_digests.\n')
     known = {k: info[k] for k in order}
     return '\n'.join(out), known, mods
 
@@ -414,6 +449,10 @@ DEV_DOC = '''(* Gen/Gen_Devices.v  GENERATED by tools/translate.py from the sour
      h_class             class name, e.g. "NexusDeviceHandler"
      h_base              base class name (DefaultDeviceHandler: "object")
      h_defines           names of all methods defined in the class body, source order
+     h_method_digests    (method name, digest) for every method of h_defines: 16 hex digits of
+                         SHA-256 over the ast dump of the body (docstring and layout excluded);
+                         lets a GenProps file pin the source text a hand model was written for
+                         (method_digest h name : option bytes)
      h_exempt_errors     Some l when the class body assigns _EXEMPT_ERRORS = [<str literals>]
      h_base_capabilities Some l when the class body assigns _BASE_CAPABILITIES = [<str literals>]
      h_init_passthrough  true when __init__ is absent or only calls super().__init__(device_params,
@@ -534,6 +573,7 @@ def gen_devices(repo, xml_consts, rpc_known, op_mods):
                 else:
                     raise TranslateError(f, st, 'statement in the body of %s is not understood' % cd.name)
             fns = {st.name: st for st in cd.body if isinstance(st, ast.FunctionDef)}
+            h['digests'] = [(st.name, digest(st)) for st in cd.body if isinstance(st, ast.FunctionDef)]
             if len(fns) != len(h['defines']):
                 raise TranslateError(f, cd, 'method defined twice in %s' % cd.name)
             if '__init__' in fns and stem != 'default':
@@ -569,7 +609,7 @@ def gen_devices(repo, xml_consts, rpc_known, op_mods):
     out.append('Inductive getter (A : Type) : Type :=\n| Inherit : getter A\n| Literal : A -> getter A\n| Computed : bytes -> getter A.\n'
                'Arguments Inherit {A}.\nArguments Literal {A} _.\nArguments Computed {A} _.\n')
     out.append('Definition nsdict := list (option bytes * bytes).\n')
-    out.append('Record handler : Type := mk_handler {\n  h_module : bytes;\n  h_class : bytes;\n  h_base : bytes;\n  h_defines : list bytes;\n'
+    out.append('Record handler : Type := mk_handler {\n  h_module : bytes;\n  h_class : bytes;\n  h_base : bytes;\n  h_defines : list bytes;\n  h_method_digests : list (bytes * bytes);\n'
                '  h_exempt_errors : option (list bytes);\n  h_base_capabilities : option (list bytes);\n  h_init_passthrough : bool;\n'
                '  h_capabilities : getter (list bytes);\n  h_ns_dict : getter nsdict;\n  h_extra_prefix : getter (list (bytes * nsdict));\n'
                '  h_qualify : getter bool;\n  h_subsystems : getter (list bytes);\n  h_vendor_ops : getter (list (bytes * bytes));\n'
@@ -588,8 +628,9 @@ def gen_devices(repo, xml_consts, rpc_known, op_mods):
         names.append(ident)
         G = h['getters']
         out.append('(* ncclient/devices/%s.py : %s (line %d) *)' % (comment_text(h['module']), comment_text(h['cls']), h['line']))
-        out.append('Definition %s : handler := mk_handler\n  %s\n  %s\n  %s\n  %s\n  %s\n  %s\n  %s\n  %s\n  %s\n  %s\n  %s\n  %s\n  %s\n  %s.\n' % (
+        out.append('Definition %s : handler := mk_handler\n  %s\n  %s\n  %s\n  %s\n  %s\n  %s\n  %s\n  %s\n  %s\n  %s\n  %s\n  %s\n  %s\n  %s\n  %s.\n' % (
             ident, cq_bytes_c(h['module']), cq_bytes_c(h['cls']), cq_bytes_c(h['base']), cq_bytes_list(h['defines']),
+            cq_pairs(h['digests']),
             cq_opt(None if h['exempt'] is None else cq_bytes_list(h['exempt']), '(list bytes)'),
             cq_opt(None if h['basecaps'] is None else cq_bytes_list(h['basecaps']), '(list bytes)'),
             cq_bool(h['init_pass']),
@@ -603,6 +644,7 @@ def gen_devices(repo, xml_consts, rpc_known, op_mods):
             cq_pairs(h['ops_modules'])))
     out.append('Definition handlers : list handler :=\n  [%s].\n' % '; '.join(names))
     out.append('Definition find_handler (m : bytes) : option handler :=\n  find (fun h => beq (h_module h) m) handlers.\n')
+    out.append('Definition method_digest (h : handler) (name : bytes) : option bytes := dict_get name (h_method_digests h).\n')
     out.append('Definition BASE_CAPABILITIES : list bytes :=\n  match h_base_capabilities h_default with Some l => l | None => [] end.\n')
     out.append('Definition DEFAULT_EXEMPT_ERRORS : list bytes :=\n  match h_exempt_errors h_default with Some l => l | None => [] end.\n')
     return '\n'.join(out)
